@@ -116,9 +116,9 @@ func (g *gen) realInterleave() {
 }
 
 func (g *gen) realSeqs() [][]string {
-	seqs := [][]string{{}, {"T"}, {"E", "T", "E"}, {"D40", "X", "D300", "T"}, {"T", "T", "T", "T", "T", "T"}}
+	seqs := [][]string{{}, {"T"}, {"E", "T", "E"}, {"D40", "X", "D300", "T"}, {"T", "T", "T", "T", "T", "T"}, {"H0", "I8", "H15", "T"}, {"I4", "H9", "H23", "H1"}}
 	if g.r.Thorough() {
-		pool := []string{"E", "T", "X", "D1", "D7", "D40", "D125", "D126", "D300", "D5000", "D70000"}
+		pool := []string{"E", "T", "X", "D1", "D7", "D40", "D125", "D126", "D300", "D5000", "D70000", "H2", "H10", "I12", "H20", "I24", "H32"}
 		for i := 0; i < 24; i++ {
 			n := g.rng.Intn(7)
 			ks := make([]string, n)
